@@ -706,6 +706,10 @@ def _components_cases(ctx, reqs, pend):
                 if st2 != 'ok' or not np.array_equal(g.affine, A):
                     ctx.fail(dict(case, fn='VolumeGeometry.from_components'), f'{st2}', site='from_components')
                 else:
+                    st_v, vol = _call(hd.Volume.from_components, np.zeros(tuple(shape), dtype=np.uint8), coordinate_system='PATIENT',
+                                      **{k: v for k, v in kw.items() if k != 'spatial_shape'})
+                    if st_v != 'ok' or not np.array_equal(vol.affine, A):
+                        ctx.fail(dict(case, fn='Volume.from_components'), f'{st_v}', site='from_components')
                     if np.abs(np.array(g.spacing) - s3).max() > 1e-9 or np.abs(g.direction - D).max() > 1e-9:
                         ctx.fail(dict(case, fn='VolumeGeometry.spacing/direction'), {'spacing': g.spacing}, site='accessors')
                     if use_center and np.abs(np.array(g.center_position) - np.array(pos)).max() > 1e-9 * (1 + np.abs(np.array(pos)).max()):
@@ -761,6 +765,46 @@ def _volume_attr_cases(ctx):
         back = g.map_reference_to_indices(ref)
         if np.abs(back - idx).max() > 1e-7:
             ctx.fail(dict(case, fn='map_reference_to_indices(map_indices_to_reference)'), {'got': back.tolist()}, site='roundtrip')
+        # a Volume with an array has the same geometry as the geometry-only object
+        st_v, vol = _call(hd.Volume.from_attributes, array=np.zeros((3, 4, 5), dtype=np.uint8), image_position=pl['pos'],
+                          image_orientation=pl['ori'], pixel_spacing=pl['ps'], spacing_between_slices=sbs, coordinate_system='PATIENT')
+        if st_v != 'ok' or not np.array_equal(vol.affine, g.affine) or not np.array_equal(vol.get_geometry().affine, g.affine):
+            ctx.fail(dict(case, fn='Volume.from_attributes'), f'{st_v}: differs from VolumeGeometry.from_attributes', site='accessors')
+        # the remaining component accessors, each against its definition
+        shp = (3, 4, 5)
+        sp3 = np.array([sbs, pl['ps'][0], pl['ps'][1]])
+        A = g.affine
+        checks = {
+            'center_indices': (np.array(g.center_indices), np.array([(d - 1) / 2 for d in shp])),
+            'nearest_center_indices': (np.array(g.nearest_center_indices), np.array([(d - 1) // 2 for d in shp])),
+            'center_position': (np.array(g.center_position), (A @ np.array([1.0, 1.5, 2.0, 1.0]))[:3]),
+            'physical_extent': (np.array(g.physical_extent), sp3 * np.array(shp)),
+            'voxel_volume': (np.array([g.voxel_volume]), np.array([sp3.prod()])),
+            'physical_volume': (np.array([g.physical_volume]), np.array([sp3.prod() * 60])),
+            'spacing_vectors': (np.array(g.spacing_vectors()), A[:3, :3].T),
+            'unit_vectors': (np.array(g.unit_vectors()), (A[:3, :3] / sp3).T),
+            'inverse_affine': (g.inverse_affine @ A, np.eye(4)),
+        }
+        for name, (got_v, want_v) in checks.items():
+            if got_v.shape != want_v.shape or np.abs(got_v - want_v).max() > 1e-9 * (1 + np.abs(want_v).max()) * (1e3 if name == 'inverse_affine' else 1):
+                ctx.fail(dict(case, fn='VolumeGeometry.' + name), {'got': got_v.tolist(), 'want': want_v.tolist()}, site='accessors')
+        pps = g.get_plane_positions()
+        for k in range(3):
+            want_p = (A @ np.array([k, 0, 0, 1.0]))[:3]
+            for got_p in (np.array([float(x) for x in pps[k][0].ImagePositionPatient]),
+                          np.array([float(x) for x in g.get_plane_position(k)[0].ImagePositionPatient])):
+                # DS strings keep 16 characters: compare at that precision
+                if np.abs(got_p - want_p).max() > 1e-9 * (1 + np.abs(want_p).max()) + 1e-8:
+                    ctx.fail(dict(case, fn='VolumeGeometry.get_plane_position', plane=k), {'got': got_p.tolist(), 'want': want_p.tolist()}, site='accessors')
+        po = np.array([float(x) for x in g.get_plane_orientation()[0].ImageOrientationPatient])
+        if np.abs(po - np.array(pl['ori'])).max() > 1e-8:
+            ctx.fail(dict(case, fn='VolumeGeometry.get_plane_orientation'), {'got': po.tolist()}, site='accessors')
+        pm = g.get_pixel_measures()[0]
+        if np.abs(np.array([float(x) for x in pm.PixelSpacing]) - np.array(pl['ps'])).max() > 1e-8 or abs(float(pm.SpacingBetweenSlices) - sbs) > 1e-8:
+            ctx.fail(dict(case, fn='VolumeGeometry.get_pixel_measures'), {'got': [str(pm.PixelSpacing), str(pm.SpacingBetweenSlices)]}, site='accessors')
+        for bad_plane in (-1, 3):
+            if _call(g.get_plane_position, bad_plane)[0] == 'ok':
+                ctx.fail(dict(case, fn='VolumeGeometry.get_plane_position', plane=bad_plane), 'plane outside the volume accepted', site='accessors')
 
 
 # ------------------------------------------------------------------ 5. transformers for images / frames / total pixel matrix
@@ -778,6 +822,12 @@ def _dataset_cases(ctx, reqs, pend):
             return cls(pos, ori, ps, spacing_between_slices=1.0 if sbs is None else sbs)
         return cls(pos, ori, ps)
 
+    nofor = sources.single_image_no_for(3, 4)
+    for cls in tcls:
+        st, t = _call(cls.for_image, nofor)
+        ctx.case(fn='for_image', kind='no_frame_of_reference', outcome=st if st == 'ok' else t)
+        if st == 'ok':
+            ctx.fail({'fn': 'for_image', 'kind': 'no_frame_of_reference', 'cls': cls.__name__}, 'image without frame of reference accepted', site='for_image')
     for i in range(n):
         r = ctx.rng('ds', i)
         pl = _plane(r)
